@@ -19,7 +19,7 @@ PROPS = {
                        dict(profile='C11', flavor='asan', quick=500, thorough=30000, modeb=True)], level='exploration'),
     'C12': dict(parts=[dict(profile='C12', flavor='asan', quick=5000, thorough=500000)], level='exploration'),
     'C13': dict(parts=[dict(profile='C13', flavor='asan', quick=5000, thorough=500000)], level='exploration'),
-    'C14': dict(parts=[dict(profile='C14', flavor='asan', quick=24, thorough=600, enumerate=True)], level='fault_enumeration'),
+    'C14': dict(parts=[dict(profile='C14', flavor='asan', quick=300, thorough=3000, enumerate=True, quick_args=['--max-subs', '500'], thorough_args=[])], level='fault_enumeration'),
     'C16': dict(parts=[dict(profile='C16', flavor='asan', quick=4000, thorough=300000)], level='exploration'),
     'C17': dict(parts=[dict(profile='C17', flavor='asan', quick=5000, thorough=500000)], level='exploration'),
     'C20': dict(parts=[dict(profile='C20', flavor='asan', quick=3000, thorough=250000),
@@ -125,17 +125,20 @@ VALGRIND = ['valgrind', '-q', '--error-exitcode=99', '--exit-on-first-error=yes'
 class Worker:
     """Runs chunks of seeds; restarts the binary after a death."""
 
-    def __init__(self, binp, profile, prefix=None):
-        self.binp, self.profile, self.prefix = binp, profile, prefix or []
+    def __init__(self, binp, profile, prefix=None, extra=None):
+        self.binp, self.profile, self.prefix, self.extra = binp, profile, prefix or [], extra or []
 
     def run_range(self, start, count, out, deadline):
         s, end = start, start + count
+        sub_from = 0
         while s < end:
             if time.time() > deadline:
                 out['skipped'] += end - s
                 return
-            p = subprocess.Popen(self.prefix + [self.binp, '--profile', self.profile, '--seed', str(s), '--count', str(end - s)],
+            p = subprocess.Popen(self.prefix + [self.binp, '--profile', self.profile, '--seed', str(s), '--count', str(end - s)] + self.extra +
+                                 (['--sub-from', str(sub_from)] if sub_from else []),
                                  stdout=subprocess.PIPE, stderr=subprocess.PIPE, text=True)
+            sub_from = 0
             so, se = p.communicate()
             done = 0
             for ln in so.splitlines():
@@ -150,18 +153,24 @@ class Worker:
                     out['summaries'].append(json.loads(ln[8:]))
             if p.returncode == 0:
                 return
-            m = re.search(r'SIM-DIED profile=\S+ seed=(\d+)', se) or re.search(r'SIM-WATCHDOG profile=\S+ seed=(\d+)', se)
+            m = re.search(r'SIM-DIED profile=\S+ seed=(\d+)(?: sub=(-?\d+))?', se) or re.search(r'SIM-WATCHDOG profile=\S+ seed=(\d+)(?: sub=(-?\d+))?', se)
             died = int(m.group(1)) if m else s + done
+            sub = int(m.group(2)) if m and m.group(2) is not None else -1
             sig = sanitizer_signature(se)
             if p.returncode == 2 and sig is None:
                 out['infra'].append('worker exit 2 at seed %d: %s' % (died, se[-400:]))
                 return
-            out['deaths'].append(dict(seed=died, sig=sig or ('exit%d' % p.returncode), rc=p.returncode, stderr=se[-6000:]))
+            out['deaths'].append(dict(seed=died, sub=sub, sig=sig or ('exit%d' % p.returncode), rc=p.returncode, stderr=se[-6000:]))
             # partial stats of a dead worker are lost except its RUN lines; continue after the dead seed
-            s = died + 1
+            # (enumeration profiles: after the dead failing index of the same scenario)
+            if sub > 0:
+                s = died
+                sub_from = sub + 1
+            else:
+                s = died + 1
 
 
-def run_parallel(binp, profile, start, count, wall, chunk=None, modeb=False, prefix=None):
+def run_parallel(binp, profile, start, count, wall, chunk=None, modeb=False, prefix=None, extra=None):
     out = dict(runs=[], summaries=[], deaths=[], infra=[], skipped=0)
     lock = threading.Lock()
     q = queue.Queue()
@@ -176,7 +185,7 @@ def run_parallel(binp, profile, start, count, wall, chunk=None, modeb=False, pre
     deadline = time.time() + wall
 
     def work():
-        w = Worker(binp, profile, prefix)
+        w = Worker(binp, profile, prefix, extra)
         while True:
             try:
                 a, n = q.get_nowait()
@@ -424,7 +433,7 @@ def do_check(root, prop, tier, seed):
         count = part[tier]
         wall = wall_total / nparts
         if part.get('enumerate'):
-            res = run_parallel(binp, part['profile'], start, count, wall, chunk=1)
+            res = run_parallel(binp, part['profile'], start, count, wall, chunk=1, extra=part.get(tier + '_args'))
         elif part['flavor'] == 'valgrind':
             res = run_parallel(binp, part['profile'], start + pi * 500000, count, wall, chunk=max(2, count // (WORKERS * 2)), prefix=VALGRIND)
         else:
@@ -454,12 +463,12 @@ def do_check(root, prop, tier, seed):
             for v in r.get('viol', []):
                 cls = v['prop'] + ':' + v['oracle']
                 if v['prop'] == prop:
-                    own.setdefault(cls, []).append((r['seed'], v['detail'], pi))
+                    own.setdefault(cls, []).append((r['seed'], v['detail'], pi, r.get('sub', 0)))
                 else:
                     cross[cls] = cross.get(cls, 0) + 1
         for d in res['deaths']:
             cls = 'san:' + d['sig']
-            own.setdefault(cls, []).append((d['seed'], d['stderr'][-1500:], pi))
+            own.setdefault(cls, []).append((d['seed'], d['stderr'][-1500:], pi, max(0, d.get('sub', 0))))
         part_rows.append(dict(profile=part['profile'], flavor=part['flavor'], runs=pr, deaths=len(res['deaths']), skipped=res['skipped']))
 
     if infra:
@@ -471,7 +480,7 @@ def do_check(root, prop, tier, seed):
     new_viol = []
     for cls in sorted(own):
         occ = sorted(own[cls])
-        seed0, detail0, pi = occ[0]
+        seed0, detail0, pi, sub0 = occ[0]
         part = spec['parts'][pi]
         binp = bins[part['flavor']]
         k = None
@@ -487,6 +496,8 @@ def do_check(root, prop, tier, seed):
             stat['runs_cut_short_by_known_finding'] = stat.get('runs_cut_short_by_known_finding', 0) + len(occ)
             continue
         plan = get_plan(binp, part['profile'], seed0)
+        if sub0:
+            plan['cfg'].setdefault('knobs', {})['fail_at'] = sub0   # the failing allocation index is part of the replay
         base = os.path.join(workdir, 'gate_%d.json' % os.getpid())
         with open(base, 'w') as f:
             json.dump(plan, f)
@@ -498,7 +509,7 @@ def do_check(root, prop, tier, seed):
         small, ntests = shrink(binp, plan, cls, workdir, budget_s=45 if tier == 'quick' else 120)
         small['violation'] = dict(cls=cls, property=prop, detail=detail0[:2000], first_seed=seed0, occurrences=len(occ), shrink_tests=ntests, steps_before=len(plan['steps']), steps_after=len(small['steps']))
         small['flavor'] = part['flavor']
-        name = '%s-%s-%d.json' % (prop, hashlib.sha1(cls.encode()).hexdigest()[:10], seed0)
+        name = '%s-%s-%d%s.json' % (prop, hashlib.sha1(cls.encode()).hexdigest()[:10], seed0, ('-%d' % sub0) if sub0 else '')
         rp = os.path.join(replays_dir, name)
         with open(rp, 'w') as f:
             json.dump(small, f, indent=1)
@@ -535,11 +546,16 @@ def do_check(root, prop, tier, seed):
         cross_property_observations=cross, seeds_not_run_wall_cap=skipped, whitebox_reads='peek.c' if peek else 'stub (black-box forms)',
         violation_classes_new=[c for c, _, _, _, _ in new_viol], known_findings_reported=known_lines,
         unvirtualised_imports=sorted(set(unvirt)), components=COMPONENTS, exhaustive=False)
+    enum = {k2[5:]: v for k2, v in stat.items() if k2.startswith('enum.')}
+    if enum:
+        cov['enumeration'] = dict(enum, note='per scenario every allocator call index 1..N of the failure-free execution is failed once when scenarios_exhaustive == scenarios; otherwise an evenly spread subset of at most --max-subs indices per scenario (quick tier). exhaustive=false because the scenario family itself is sampled.')
     assumptions = ['seeded sampling: a clean batch is evidence, not proof', 'virtual kernel models Linux socket/epoll semantics as described in DESIGN.md 3.3',
                    'server behaviours are a keyed hash of (seed, server, question, attempt)'] + COMPONENTS
     write_evidence(root, prop, tier, seed, spec['level'], cov, wall, len(new_viol), assumptions)
     if agg_runs == 0:
         raise Infra('no runs executed')
+    if not new_viol:
+        print('OK property=%s tier=%s executions=%d distinct_nontrivial=%d wall=%.0fs' % (prop, tier, agg_runs, len(shapes), wall))
     return 1 if new_viol else 0
 
 
